@@ -282,6 +282,33 @@ def fixLogLeaf (get : Bytes → Except Err Bytes) (extra : Bytes) : Except Err B
   | some _ => .ok extra
   | none => .error .unknownLayout
 
+/-- does `FixLogLeaf` consult the store for this extra data (a hash layout with a non-empty hash)? -/
+def needsLookup (extra : Bytes) : Bool :=
+  match decPCEH extra with
+  | some (_, h) => h.length != 0
+  | none =>
+    match decCCH extra with
+    | some h => h.length != 0
+    | none => false
+
+/-- `rpcGetLeavesByRange`: the leaves of the backend's reply are fixed in order; the first failure fails the whole
+request (no partial reply). `results` are the outcomes of the successive `getByHash` calls. -/
+def fixRange : List (Except Err Bytes) → List Bytes → Except Err (List Bytes)
+  | _, [] => .ok []
+  | results, e :: es =>
+    let (get, rest) : (Bytes → Except Err Bytes) × List (Except Err Bytes) :=
+      if needsLookup e then
+        match results with
+        | r :: rs => (fun _ => r, rs)
+        | [] => (fun _ => .error .unknownHash, [])
+      else (fun _ => .error .unknownHash, results)
+    match fixLogLeaf get e with
+    | .error err => .error err
+    | .ok x =>
+      match fixRange rest es with
+      | .error err => .error err
+      | .ok xs => .ok (x :: xs)
+
 /-- the order the model tries the layouts in, to be compared with the regenerated `Gen.fixOrder` -/
 def modelFixOrder : List String := ["PrecertChainEntryHash", "CertificateChainHash", "PrecertChainEntry", "CertificateChain"]
 
